@@ -132,6 +132,13 @@ META = {
         "note": "Claim creation order inside one pod (Go map order in the code) is not controlled by the harness; the oracle is order-insensitive.",
         "technique": "stateful property-based testing (rapid) with injected claim faults and a write-log invariant",
     },
+    "C08": {
+        "text": "Histories of template edits, rollbacks and non-template edits over reflectively generated pod templates, with engineered name collisions "
+                "learnt from a dry run, checked after every reconcile against the harness's own decoding of the stored revision data.",
+        "design_ref": "DESIGN.md section 3, C08",
+        "note": "Equality is Semantic.DeepEqual on the decoded template; the engineered collision uses the controller's own naming via a cloned dry run.",
+        "technique": "property-based testing (rapid, reflection generator) with round-trip and metamorphic (non-template edit) oracles",
+    },
 }
 
 _pending = "check not built yet in this round of the build; planned per DESIGN.md section 3 (generated-input search applies)"
